@@ -52,6 +52,7 @@ func (a StrAlt) Concrete() bool {
 type StrVal struct {
 	Alts   []StrAlt
 	Opaque bool // content unknown (message text); inspecting it is unsupported
+	MinLen int  // lower bound on the length of an opaque string
 }
 
 func mkStr(s string) *StrVal { return &StrVal{Alts: []StrAlt{{G: TTrue, S: s}}} }
